@@ -25,7 +25,7 @@ from ..common import CPUS, MachineryError, canon, pmap
 ENV_SIGS = ["a", "b", "c", "d", "e", "f"]
 ENV_CATS = ["C", "D"]
 PUNCT = {"(", ")", "[", "]", ",", "."}
-SEPARATORS = [" ", "\t", "\n", "  \n ", " # and or ) not\n"]
+SEPARATORS = [" ", "\t", "\n", "  \n ", " # and or ) not\n", "#glued to the symbol before it, the next one starts its line\n"]
 PARSE_TIMEOUT = 3.0
 LEAD = "# leading comment RULE\n\n"
 TRAIL = "   # trailing comment"
@@ -64,7 +64,8 @@ ALL_TEXTS = sorted(set(VOCAB_ALL) | {"r0", "r3", "r4", "r5", "r9", "D", "Nope", 
 # ---- text construction ------------------------------------------------------------------------
 def join_tokens(tokens: list, sep: int) -> str:
     """ Token texts -> rule text.  sep 0..4: that separator everywhere; 5: no separator next to
-        punctuation, single spaces elsewhere; 6: separators in rotation, comment lines around. """
+        punctuation, single spaces elsewhere; 6: separators in rotation (the sixth, a comment glued to the symbol before
+        it, only appears here), comment lines around. """
     out = []
     for idx, token in enumerate(tokens):
         if idx:
